@@ -19,6 +19,11 @@ CFGS = [
     ("pct0", {"tol_pct": 0}),
     ("min1-pct34", {"min_ok": 1, "tol_pct": 34}),
     ("min3-tol5", {"min_ok": 3, "tol_n": 5}),
+    # tolerances that fall between the truncated and the true failure share for 3, 6 and 9 items (1/3 = 33.3 %, 2/3 = 66.7 %)
+    ("pct33", {"tol_pct": 33}),
+    ("pct66", {"tol_pct": 66}),
+    ("pct33.3", {"tol_pct": 33.3}),
+    ("pct12", {"tol_pct": 12}),
 ]
 
 
@@ -78,6 +83,8 @@ def explicit(tier, seed):
         kind = rng.choice(["par", "map"])
         n = rng.choice([1, 2, 3, 3, 4, 4, 5, 6, 8])
         cname, cfg = rng.choice(CFGS)
+        if cname.startswith("pct3") or cname == "pct66":
+            n = rng.choice([3, 3, 6, 6, 9, 7])
         behaviours = [rng.choice(["ok", "ok", "ok", "fail", "fail", "wait", "cb", "block"]) for _ in range(n)]
         maxc = rng.choice([None, None, 1, 2, n])
         order = list(range(n))
@@ -166,7 +173,7 @@ SPEC = Spec(
     explicit=explicit_all,
     quick={"plain": 0, "enum": 0, "rand": 0, "async": 0},
     thorough={"plain": 0, "enum": 0, "rand": 0, "async": 0},
-    rule="map/parallel with 0-8 items x 13 completion configurations (defaults, presets, min_successful, tolerated count / percentage and "
+    rule="map/parallel with 0-8 items x 17 completion configurations (incl. percentages that separate truncated from exact failure shares) (defaults, presets, min_successful, tolerated count / percentage and "
     "combinations) x max_concurrency in {None,1,2,n} x per-branch behaviour in {succeed, fail, timed suspend, suspend on callback, block "
     "inside the step function} x a completion order forced by conductor gates inside the step functions (gate k is released only after "
     "the previous branch body has exited; blocked branches are released only once the call has returned), followed by a wait so the "
